@@ -201,7 +201,7 @@ PROPS = {
     },
     "C11": {
         "proofs": ["ZlProofs.Props.C11", "ZlProofs.Props.C05"],  # locality is a statement about lints that are functions of (object, configuration): C05's footprint facts
-        "corr": ["config", "rsa"],  # rsa: the one real numeric option (Rounds) under rising and falling sequences on one modulus, against the Fermat model
+        "corr": ["config", "filter", "rsa"],  # filter: a filtered registry is a new registry holding a copy of the configuration (filter_inherits / no_leak); rsa: the one real numeric option (Rounds) under rising and falling sequences on one modulus, against the Fermat model
         "search": [],
         "trusted_base": TB_COMMON,
         "assumptions": ["A-TOML: go-toml's parser and reflection-based Unmarshal as abstracted by the typed-field view (key search name/lower/upper/lower-first, exact kind match, unknown keys ignored)"],
